@@ -3,7 +3,7 @@
 
 For each case the harness computes
   impl   - the real flox (in-process, imported from /repo)
-  model  - the Lean model `Flox.PartialAxis.run` (normalise axes, move to end, collapse, offset labels, grouped
+  model  - the Lean model `Flox.PartialAxis.run` (normalise + sort axes, move to end, collapse, offset labels, grouped
            kernel with the nan sentinel, reshape, min_count mask) + its metadata model of the chunked graph
   spec   - the Lean specification `Flox.PartialAxis.specRun` (loop over kept indices, 1-D `Spec.reduce` per slice)
   oracle - NumPy per slice and per group in this file (independent of flox and of Lean)
